@@ -631,7 +631,7 @@ pub fn main(ctx: &Ctx) {
     campaign_with_fixed(
         ctx,
         Campaign {
-            total_cases: ctx.pick(1_200, 40_000),
+            total_cases: ctx.pick(1_200, 12_000),
             max_shrink_iters: 300,
             limits: Limits { cpu_s: 120, wall_s: 400, as_bytes: 4 << 30 },
             meta: Meta {
@@ -642,7 +642,7 @@ pub fn main(ctx: &Ctx) {
                     "creation returning an error is accepted (the statement allows it); deletion results are C36's business and only steer the model",
                     "harness binaries are built with overflow-checks (like every debug build of dust-dds); findings that need them carry profile=overflow-checks in the signature",
                 ],
-                nontrivial_floor: ctx.pick(50, 1_000),
+                nontrivial_floor: ctx.pick(50, 600),
             },
         },
         fixed_cases(thorough),
